@@ -222,7 +222,8 @@ func zzConnectRouter(ctx context.Context, method string, req Request) (Result, e
 		case 1:
 			return nil, errors.New("initialize refused")
 		case 2:
-			return &InitializeResult{ProtocolVersion: "1999-01-01"}, nil
+			// ... from before the legacy era, or from after every revision this SDK knows (a server newer than the client)
+			return &InitializeResult{ProtocolVersion: []string{"1999-01-01", "2099-12-31", protocolVersion20260728 + "-draft"}[vChoice("unknownVersion", 3)]}, nil
 		}
 		return &InitializeResult{ProtocolVersion: protocolVersion20251125}, nil
 	case notificationInitialized:
